@@ -201,8 +201,55 @@ var (
 
 // chosenU draws a field element aimed at the exceptional / branch cases.
 func chosenU(t *rapid.T) (*big.Int, string) {
-	kind := gen.Sampled([]string{"0", "1", "p-1", "+sqrt(1/11)", "-sqrt(1/11)", "small", "drawn", "drawn", "iso-kernel", "limb-edge", "limb-edge"}).Draw(t, "ukind")
+	kind := gen.Sampled([]string{"0", "1", "p-1", "+sqrt(1/11)", "-sqrt(1/11)", "small", "drawn", "drawn", "iso-kernel", "limb-edge", "limb-edge", "steered", "steered"}).Draw(t, "ukind")
 	switch kind {
+	case "steered":
+		// u solved so that an intermediate of the straight-line SWU map (u^2, Z u^2, (Z u^2)^2, the
+		// denominator Z^2 u^4 + Z u^2, or that plus one) is a hostile value -- a limb pattern of the
+		// integer or of its Montgomery form, a value next to a limb boundary or the modulus.  Predicates
+		// and small-constant arithmetic on these intermediates see such operands only this way: the
+		// intermediates of a drawn u look uniformly random.
+		half := ref.Inv0(big.NewInt(2), ref.P)
+		zinv := ref.Inv0(ref.SwuZ, ref.P)
+		for try := 0; try < 6; try++ {
+			target := ref.Mod(gen.Raw256(t, ref.P, fmt.Sprintf("target%d", try)), ref.P)
+			which := gen.Sampled([]string{"u^2", "Zu^2", "(Zu^2)^2", "tv2", "tv2", "tv2+1"}).Draw(t, fmt.Sprintf("which%d", try))
+			var zu2 *big.Int // the value Z u^2 has to take
+			switch which {
+			case "u^2":
+				zu2 = ref.MulM(ref.SwuZ, target, ref.P)
+			case "Zu^2":
+				zu2 = target
+			case "(Zu^2)^2":
+				r, ok := ref.SqrtP(target)
+				if !ok {
+					continue
+				}
+				zu2 = r
+			default: // w^2 + w = c  <=>  w = (-1 +- sqrt(1 + 4c)) / 2
+				c := target
+				if which == "tv2+1" {
+					c = ref.SubM(target, big.NewInt(1), ref.P)
+				}
+				r, ok := ref.SqrtP(ref.AddM(big.NewInt(1), ref.MulM(big.NewInt(4), c, ref.P), ref.P))
+				if !ok {
+					continue
+				}
+				if rapid.Bool().Draw(t, fmt.Sprintf("root%d", try)) {
+					r = ref.NegM(r, ref.P)
+				}
+				zu2 = ref.MulM(ref.SubM(r, big.NewInt(1), ref.P), half, ref.P)
+			}
+			u, ok := ref.SqrtP(ref.MulM(zu2, zinv, ref.P))
+			if !ok {
+				continue
+			}
+			if rapid.Bool().Draw(t, fmt.Sprintf("neg%d", try)) {
+				u = ref.NegM(u, ref.P)
+			}
+			return u, "steered:" + which
+		}
+		return gen.Int256(t, ref.P, "u"), "drawn"
 	case "0":
 		return big.NewInt(0), kind
 	case "1":
